@@ -1300,13 +1300,130 @@ fn gen_steady_op(rng: &mut Rng, k: usize) -> Op {
     }
 }
 
+
+// ------------------------------------------------------------------------------------------------
+// F-C07-7 shapes: an overloaded operator / protocol entry whose call fails before its frame is
+// pushed, caught N times in the same frame (no successful call in between). The H1 difference must be
+// (0, 0, 0, 0) and the caught message the same at every iteration (one distinct message).
+
+/// (name, meta key, statement(s) using `m`, arity of a *wrong* Koto function for that key)
+const OVERLOADS: &[(&str, &str, &str, usize)] = &[
+    ("add", "@+", "x = m + 1", 2),
+    ("subtract", "@-", "x = m - 1", 2),
+    ("multiply", "@*", "x = m * 1", 2),
+    ("divide", "@/", "x = m / 1", 2),
+    ("remainder", "@%", "x = m % 1", 2),
+    ("power", "@^", "x = m ^ 1", 2),
+    ("less", "@<", "x = m < 1", 2),
+    ("less-or-equal", "@<=", "x = m <= 1", 2),
+    ("greater", "@>", "x = m > 1", 2),
+    ("greater-or-equal", "@>=", "x = m >= 1", 2),
+    ("equal", "@==", "x = m == 1", 2),
+    ("not-equal", "@!=", "x = m != 1", 2),
+    ("add-assign", "@+=", "mm = m\nmm += 1", 2),
+    ("subtract-assign", "@-=", "mm = m\nmm -= 1", 2),
+    ("multiply-assign", "@*=", "mm = m\nmm *= 1", 2),
+    ("divide-assign", "@/=", "mm = m\nmm /= 1", 2),
+    ("remainder-assign", "@%=", "mm = m\nmm %= 1", 2),
+    ("power-assign", "@^=", "mm = m\nmm ^= 1", 2),
+    ("negate", "@negate", "x = -m", 1),
+    ("size", "@size", "x = size m", 1),
+    ("display", "@display", "x = \"<{m}>\"", 1),
+    ("index", "@index", "x = m[0]", 2),
+    ("index-assign", "@index_assign", "m[0] = 1", 3),
+    ("access", "@access", "x = m.foo", 2),
+    ("access-assign", "@access_assign", "m.foo = 1", 3),
+    ("call", "@call", "x = m()", 1),
+    ("iterator", "@iterator", "for x in m\n  break", 1),
+    ("next", "@next", "for x in m\n  break", 1),
+    ("next-through-adaptor", "@next", "x = iterator.take(m, 1).to_tuple()", 1),
+];
+
+fn setup_failure_value(kind: usize, arity: usize) -> (&'static str, String) {
+    match kind {
+        0 => {
+            let params: Vec<String> = (0..arity).map(|i| format!("p{i}")).collect();
+            ("wrong-arity", format!("|{}| 1", params.join(", ")))
+        }
+        1 => ("not-callable", "1".to_string()),
+        _ => ("failing-native", "number.abs".to_string()),
+    }
+}
+
+/// placement: 0 plain, 1 under a native callback, 2 inside a generator that outlives the run
+fn gen_setup_failure_op(rng: &mut Rng, k: usize, oi: usize, kind: usize, n: usize, placement: usize, live: &mut Vec<String>) -> Op {
+    let (name, key, stmt, arity) = OVERLOADS[oi % OVERLOADS.len()];
+    let (kname, value) = setup_failure_value(kind, arity);
+    let _ = rng;
+    // no call (and nothing else that truncates the value stack) between two failures: the distinct
+    // messages are counted with comparisons only
+    let body = format!(
+        "last = null\nchanges = 0\nfor i in 0..{n}\n  e_i = try\n{}\n    'no-error'\n  catch e\n    e\n  if e_i != last\n    changes += 1\n    last = e_i",
+        indent(stmt, 4)
+    );
+    let expected = "ok:(t i0 i0 i0 i0 i1)";
+    let (text, ok_value) = match placement {
+        0 => (
+            format!("m = {{{key}: {value}}}\na_{k} = c07_sizes()\n{body}\nb_{k} = c07_sizes()\n(b_{k}[0] - a_{k}[0], b_{k}[1] - a_{k}[1], b_{k}[2] - a_{k}[2], b_{k}[3] - a_{k}[3], changes)\n"),
+            expected.to_string(),
+        ),
+        1 => (
+            format!("m = {{{key}: {value}}}\nrunit = |d|\n  a = c07_sizes()\n{}\n  b = c07_sizes()\n  (b[0] - a[0], b[1] - a[1], b[2] - a[2], b[3] - a[3], changes)\n[0].fold null, |acc, d| runit d\n", indent(&body, 2)),
+            expected.to_string(),
+        ),
+        _ => {
+            live.push(format!("sg_{k}"));
+            (
+                format!("gen_{k} = ||\n  m = {{{key}: {value}}}\n  first = null\n  loop\n    a = c07_sizes()\n    if first == null\n      first = a[0]\n{}\n    b = c07_sizes()\n    yield (b[0] - a[0], b[1] - a[1], b[2] - a[2], b[3] - a[3], changes, a[0] - first)\nexport sg_{k} = gen_{k}()\nsg_{k}.next().get()\n", indent(&body, 4)),
+                "ok:(t i0 i0 i0 i0 i1 i0)".to_string(),
+            )
+        }
+    };
+    let op = Op {
+        kind: OpKind::Run,
+        text,
+        ref_text: None,
+        args: vec![],
+        events: "enter:0:0:k0 nf:8 cn:3 nr:1 ts:1:90 osf:2 te ts:1:90 osf:2 te cn:3 nr:1 ret".into(),
+        runs_tests: true,
+        expect: "ok".into(),
+        err_contains: None,
+        ok_value: Some(ok_value),
+        residue_class: String::new(),
+        adds_tests: 0,
+        gen_check: None,
+        tags: vec!["steady-state-inside-run".into(), "operator-setup-failure".into(), format!("overload={name}"), format!("setup-failure={kname}"), format!("iterations={n}"), format!("placement={placement}")],
+    };
+    op
+}
+
+/// a later resumption of a generator created by `gen_setup_failure_op` (placement 2)
+fn gen_setup_failure_next_op(name: &str) -> Op {
+    Op {
+        kind: OpKind::Run,
+        text: format!("{name}.next().get()\n"),
+        ref_text: None,
+        args: vec![],
+        events: "enter:0:0:k0 nf:4 cn:3 nr:1 cn:3 nr:1 ret".into(),
+        runs_tests: true,
+        expect: "ok".into(),
+        err_contains: None,
+        ok_value: Some("ok:(t i0 i0 i0 i0 i1 i0)".into()),
+        residue_class: String::new(),
+        adds_tests: 0,
+        gen_check: None,
+        tags: vec!["steady-state-inside-run".into(), "operator-setup-failure".into(), "placement=generator-resumed-in-a-later-run".into()],
+    }
+}
+
 fn gen_history(rng: &mut Rng, mod_dir: &str, max_native_err: usize) -> History {
     let n = 5 + rng.below(36);
     let mut ops = vec![setup_op()];
     let mut native_err = 0;
     let mut live: Vec<LiveGen> = vec![];
+    let mut steady_gens: Vec<String> = vec![];
     for k in 1..=n {
-        let op = match rng.weighted(&[38, 18, 7, 7, if live.is_empty() { 0 } else { 7 }, 5, 7, 7, 8]) {
+        let op = match rng.weighted(&[34, 16, 7, 7, if live.is_empty() { 0 } else { 7 }, 5, 7, 7, 8, 8, if steady_gens.is_empty() { 0 } else { 4 }]) {
             0 => gen_run_op(rng, k, true),
             1 => gen_call_op(rng, k),
             2 => gen_tostring_op(rng, k),
@@ -1325,7 +1442,18 @@ fn gen_history(rng: &mut Rng, mod_dir: &str, max_native_err: usize) -> History {
             5 => gen_recover_op(rng, k),
             6 => gen_bigcall_op(rng, mod_dir),
             7 => gen_native_meta_op(rng, k, mod_dir),
-            _ => gen_steady_op(rng, k),
+            8 => gen_steady_op(rng, k),
+            9 => {
+                let oi = rng.below(OVERLOADS.len());
+                let kind = rng.below(3);
+                let n = *rng.pick(&[1usize, 3, 10, 50, 150, 300]);
+                let placement = rng.below(3);
+                gen_setup_failure_op(rng, k, oi, kind, n, placement, &mut steady_gens)
+            }
+            _ => {
+                let g = steady_gens[rng.below(steady_gens.len())].clone();
+                gen_setup_failure_next_op(&g)
+            }
         };
         // generation filter (F-C07-1): keep the accumulated register residue far from the u8 wrap
         // (only relevant while F-C07-1 is open; `max_native_err` is usize::MAX once it is fixed)
@@ -2511,6 +2639,35 @@ fn main() {
         }
         let h = History { ops, limit_ms: 0, mod_dir: mod_dir_s.clone() };
         cx.run_history(&h, false, "sweep:steady-state-inside-run");
+    }
+
+    // 1u. operator set-up failures (F-C07-7): every overload x failure kind, 150 caught iterations in
+    //     the same frame; every third one also under a native callback / in a generator that is
+    //     resumed again in later runs
+    {
+        let mut r = Rng::new(23);
+        let mut k = 1300;
+        for kind in 0..3 {
+            let mut ops = vec![setup_op()];
+            let mut gens: Vec<String> = vec![];
+            for oi in 0..OVERLOADS.len() {
+                k += 1;
+                ops.push(gen_setup_failure_op(&mut r, k, oi, kind, 150, 0, &mut gens));
+                if oi % 3 == kind {
+                    k += 1;
+                    ops.push(gen_setup_failure_op(&mut r, k, oi, kind, 300, 1, &mut gens));
+                    k += 1;
+                    ops.push(gen_setup_failure_op(&mut r, k, oi, kind, 60, 2, &mut gens));
+                }
+            }
+            for _round in 0..2 {
+                for g in gens.clone() {
+                    ops.push(gen_setup_failure_next_op(&g));
+                }
+            }
+            let h = History { ops, limit_ms: 0, mod_dir: mod_dir_s.clone() };
+            cx.run_history(&h, false, &format!("sweep:operator-setup-failure-kind{kind}"));
+        }
     }
 
     // 1w. top-level `yield` interleaved with failing runs (F-C07-4 regression shape)
